@@ -12,13 +12,16 @@ def startPos (n : Nat) (c : Int) : Nat :=
 
 /-- the column list `_shift_blocks` produces before the row shift, as the code assembles it:
     the list cut at the start position, head first; head or tail replaced by
-    `min n |c|` fill columns when not wrapping. -/
-def walkCols (cols : List β) (c : Int) (wrap : Bool) (f : β) : List β :=
+    `min n |c|` fill columns when not wrapping; `rep`: the other part is dropped when every column is
+    shifted out (the repaired code), `rep = false`: the pinned code. -/
+def walkCols (rep : Bool) (cols : List β) (c : Int) (wrap : Bool) (f : β) : List β :=
   let n := cols.length
   let q := startPos n c
   if wrap then cols.drop q ++ cols.take q
-  else if c > 0 then List.replicate (min n c.natAbs) f ++ cols.take q
-  else if c < 0 then cols.drop q ++ List.replicate (min n c.natAbs) f
+  else if c > 0 then
+    List.replicate (min n c.natAbs) f ++ (if rep = true ∧ c ≥ (n : Int) then [] else cols.take q)
+  else if c < 0 then
+    (if rep = true ∧ -c ≥ (n : Int) then [] else cols.drop q) ++ List.replicate (min n c.natAbs) f
   else cols
 
 theorem startPos_lt (n : Nat) (c : Int) (hn : 0 < n) : startPos n c < n := by
@@ -26,8 +29,8 @@ theorem startPos_lt (n : Nat) (c : Int) (hn : 0 < n) : startPos n c < n := by
   unfold startPos; split <;> omega
 
 /-- wrapping: the walk is a rotation -/
-theorem walkCols_roll (cols : List β) (c : Int) (f : β) (hn : 0 < cols.length) :
-    walkCols cols c true f = rollSpec cols c := by
+theorem walkCols_roll (rep : Bool) (cols : List β) (c : Int) (f : β) (hn : 0 < cols.length) :
+    walkCols rep cols c true f = rollSpec cols c := by
   obtain ⟨h1, h2⟩ := shift_emod_bounds c cols.length hn
   unfold walkCols rollSpec List.rotateRight startPos
   simp only [if_true]
@@ -50,11 +53,11 @@ theorem shift_emod_of_small_neg (c : Int) (n : Nat) (h0 : c < 0) (h1 : -(n : Int
 
 theorem shift_emod_self_nat (n : Nat) : (n : Int) % (n : Int) = 0 := Int.emod_self
 
-/-- not wrapping, a column shift the code handles: the walk is the shift with fill -/
-theorem walkCols_shift (cols : List β) (c : Int) (f : β) (_hn : 0 < cols.length)
-    (hok : ColShiftOk cols.length c) : walkCols cols c false f = shiftSpec cols c f := by
+/-- the PINNED code, not wrapping, a column shift it handled: the walk is the shift with fill -/
+theorem walkCols_shift_pinned (cols : List β) (c : Int) (f : β) (_hn : 0 < cols.length)
+    (hok : ColShiftOk cols.length c) : walkCols false cols c false f = shiftSpec cols c f := by
   unfold walkCols shiftSpec startPos
-  simp only [Bool.false_eq_true, if_false]
+  simp only [Bool.false_eq_true, if_false, false_and]
   by_cases hp : c > 0
   · rw [if_pos hp, if_pos (show 0 ≤ c by omega)]
     have hmin : min cols.length c.natAbs = min c.toNat cols.length := by omega
@@ -84,14 +87,37 @@ theorem walkCols_shift (cols : List β) (c : Int) (f : β) (_hn : 0 < cols.lengt
       subst this
       simp
 
-/-- not wrapping, any other column shift: the walk yields too many columns -/
-theorem walkCols_overshoot (cols : List β) (c : Int) (f : β) (hn : 0 < cols.length)
-    (hbad : ¬ ColShiftOk cols.length c) : cols.length < (walkCols cols c false f).length := by
+/-- the code as it is, not wrapping: the walk is the shift with fill for EVERY column shift -/
+theorem walkCols_shift (cols : List β) (c : Int) (f : β) (hn : 0 < cols.length) :
+    walkCols true cols c false f = shiftSpec cols c f := by
+  by_cases hbig : (cols.length : Int) ≤ c ∨ c ≤ -(cols.length : Int)
+  · -- every column is shifted out
+    unfold walkCols shiftSpec
+    simp only [Bool.false_eq_true, if_false, true_and]
+    rcases hbig with h | h
+    · rw [if_pos (show c > 0 by omega), if_pos (show c ≥ (cols.length : Int) by omega),
+        if_pos (show 0 ≤ c by omega)]
+      rw [show min cols.length c.natAbs = min c.toNat cols.length by omega,
+        show cols.length - c.toNat = 0 by omega, List.take_zero]
+    · rw [if_neg (show ¬ c > 0 by omega), if_pos (show c < 0 by omega),
+        if_pos (show -c ≥ (cols.length : Int) by omega), if_neg (show ¬ 0 ≤ c by omega)]
+      rw [List.drop_of_length_le (show cols.length ≤ c.natAbs by omega),
+        show min cols.length c.natAbs = min c.natAbs cols.length by omega]
+  · -- inside the width the repaired and the pinned code agree
+    have hok : ColShiftOk cols.length c := Or.inl ⟨by omega, by omega⟩
+    rw [← walkCols_shift_pinned cols c f hn hok]
+    unfold walkCols
+    simp only [Bool.false_eq_true, if_false, true_and, false_and]
+    rw [if_neg (show ¬ c ≥ (cols.length : Int) by omega), if_neg (show ¬ -c ≥ (cols.length : Int) by omega)]
+
+/-- the PINNED code, not wrapping, any other column shift: the walk yields too many columns -/
+theorem walkCols_overshoot_pinned (cols : List β) (c : Int) (f : β) (hn : 0 < cols.length)
+    (hbad : ¬ ColShiftOk cols.length c) : cols.length < (walkCols false cols c false f).length := by
   have hq := startPos_lt cols.length c hn
   obtain ⟨h1, h2⟩ := shift_emod_bounds c cols.length hn
   unfold ColShiftOk at hbad
   unfold walkCols
-  simp only [Bool.false_eq_true, if_false]
+  simp only [Bool.false_eq_true, if_false, false_and]
   by_cases hp : c > 0
   · rw [if_pos hp]
     have hgt : (cols.length : Int) < c := by
@@ -113,14 +139,33 @@ theorem walkCols_overshoot (cols : List β) (c : Int) (f : β) (hn : 0 < cols.le
       omega
     · exact absurd (Or.inl ⟨by omega, by omega⟩) hbad
 
-theorem walkCols_length_ok (cols : List β) (c : Int) (wrap : Bool) (f : β) (hn : 0 < cols.length)
-    (hok : wrap = true ∨ ColShiftOk cols.length c) : (walkCols cols c wrap f).length = cols.length := by
+/-- the code as it is always yields as many columns as it was given -/
+theorem walkCols_length (cols : List β) (c : Int) (wrap : Bool) (f : β) (hn : 0 < cols.length) :
+    (walkCols true cols c wrap f).length = cols.length := by
   cases wrap with
-  | true => rw [walkCols_roll cols c f hn, rollSpec_length]
+  | true => rw [walkCols_roll true cols c f hn, rollSpec_length]
+  | false => rw [walkCols_shift cols c f hn, shiftSpec_length]
+
+/-- the pinned code: right number of columns for the shifts it handled, more otherwise -/
+theorem walkCols_length_pinned_ok (cols : List β) (c : Int) (wrap : Bool) (f : β) (hn : 0 < cols.length)
+    (hok : wrap = true ∨ ColShiftOk cols.length c) : (walkCols false cols c wrap f).length = cols.length := by
+  cases wrap with
+  | true => rw [walkCols_roll false cols c f hn, rollSpec_length]
   | false =>
     rcases hok with h | h
     · cases h
-    · rw [walkCols_shift cols c f hn h, shiftSpec_length]
+    · rw [walkCols_shift_pinned cols c f hn h, shiftSpec_length]
+
+theorem walkCols_length_ge (rep : Bool) (cols : List β) (c : Int) (wrap : Bool) (f : β) (hn : 0 < cols.length) :
+    cols.length ≤ (walkCols rep cols c wrap f).length := by
+  cases rep with
+  | true => rw [walkCols_length cols c wrap f hn]; exact Nat.le_refl _
+  | false =>
+    by_cases hok : wrap = true ∨ ColShiftOk cols.length c
+    · rw [walkCols_length_pinned_ok cols c wrap f hn hok]; exact Nat.le_refl _
+    · have hw : wrap = false := by cases wrap <;> simp_all
+      subst hw
+      exact Nat.le_of_lt (walkCols_overshoot_pinned cols c f hn (fun h => hok (Or.inr h)))
 
 end cut
 
@@ -159,12 +204,12 @@ theorem shift_colsDT_fill (t : DT) (w : Nat) (col : List α) :
 
 /-- `_shift_blocks` on a frame with at least one row and one column: it never raises, and its
     columns are the walk (cut at the start position, fill part) followed by the per-column row shift. -/
-theorem TB.shiftBlocks_general (tb : TB α) (hwf : tb.WF) (hr : 0 < tb.rows) (hc : 0 < tb.ncols)
+theorem TB.shiftBlocks_general (rep : Bool) (tb : TB α) (hwf : tb.WF) (hr : 0 < tb.rows) (hc : 0 < tb.ncols)
     (r c : Int) (wrap : Bool) (fill : α) (fillDT : DT) :
-    ∃ bs, tb.shiftBlocks resolve conv r c wrap fill fillDT = .ok bs ∧
+    ∃ bs, tb.shiftBlocksGen resolve conv rep r c wrap fill fillDT = .ok bs ∧
       (∀ b ∈ bs, 0 < b.width ∧ b.RowsOk tb.rows) ∧
       colsDT bs =
-        (walkCols (colsDT tb.blocks) c wrap (fillDT, List.replicate tb.rows (conv fillDT fillDT fill))).map
+        (walkCols rep (colsDT tb.blocks) c wrap (fillDT, List.replicate tb.rows (conv fillDT fillDT fill))).map
           (shiftColSpec resolve conv r wrap fill fillDT) := by
   have hn := tb.ncols_eq_colsDT
   have hwfall : ∀ b ∈ tb.blocks, 0 < b.width ∧ b.RowsOk tb.rows := fun b hb => ⟨hwf.1 b hb, hwf.2 b hb⟩
@@ -176,7 +221,7 @@ theorem TB.shiftBlocks_general (tb : TB α) (hwf : tb.WF) (hr : 0 < tb.rows) (hc
     unfold startPos; rw [← hn, hm, Int.toNat_natCast]
   have hq' : startPos tb.ncols c = if m = 0 then 0 else tb.ncols - m := by
     unfold startPos; rw [hm, Int.toNat_natCast]
-  unfold TB.shiftBlocks
+  unfold TB.shiftBlocksGen
   rw [shiftStarts_spec tb hr hc]
   simp only
   -- early exit 1
@@ -211,10 +256,10 @@ theorem TB.shiftBlocks_general (tb : TB α) (hwf : tb.WF) (hr : 0 < tb.rows) (hc
       rw [hm, hht]
       simp only
       -- the fill part
-      generalize hht' : tb.shiftFillPart conv c wrap fill fillDT (head, tail) = ht'
+      generalize hht' : tb.shiftFillPartGen conv rep c wrap fill fillDT (head, tail) = ht'
       have hfill : (∀ b ∈ ht'.1 ++ ht'.2, 0 < b.width ∧ b.RowsOk tb.rows) ∧
           colsDT (ht'.1 ++ ht'.2) =
-            walkCols (colsDT tb.blocks) c wrap (fillDT, List.replicate tb.rows (conv fillDT fillDT fill)) := by
+            walkCols rep (colsDT tb.blocks) c wrap (fillDT, List.replicate tb.rows (conv fillDT fillDT fill)) := by
         have hemp : ∀ b ∈ [Block.d2 fillDT (List.replicate (min tb.ncols c.natAbs)
             (List.replicate tb.rows (conv fillDT fillDT fill)))], c ≠ 0 → 0 < b.width ∧ b.RowsOk tb.rows := by
           intro b hb hc0
@@ -225,7 +270,7 @@ theorem TB.shiftBlocks_general (tb : TB α) (hwf : tb.WF) (hr : 0 < tb.rows) (hc
           simp only [Block.colsOf] at hx
           rw [List.eq_of_mem_replicate hx, List.length_replicate]
         subst hht'
-        simp only [TB.shiftFillPart, walkCols, ← hn, hq']
+        simp only [TB.shiftFillPartGen, walkCols, ← hn, hq']
         cases wrap with
         | true =>
           simp only [Bool.true_eq_false, if_false, if_true]
@@ -234,23 +279,39 @@ theorem TB.shiftBlocks_general (tb : TB α) (hwf : tb.WF) (hr : 0 < tb.rows) (hc
           simp only [if_true, Bool.false_eq_true, if_false]
           by_cases hp : c > 0
           · rw [if_pos hp, if_pos hp]
-            refine ⟨?_, ?_⟩
-            · intro b hb
-              rcases List.mem_append.mp hb with hb | hb
-              · exact hemp b hb (by omega)
-              · exact hmem b (List.mem_append_right _ hb)
-            · rw [colsDT_append, htail]
-              simp [colsDT, shift_colsDT_fill]
-          · rw [if_neg hp, if_neg hp]
-            by_cases hneg : c < 0
-            · rw [if_pos hneg, if_pos hneg]
+            by_cases hdrop : rep = true ∧ c ≥ (tb.ncols : Int)
+            · simp only [if_pos hdrop]
+              refine ⟨?_, ?_⟩
+              · intro b hb
+                rw [List.append_nil] at hb
+                exact hemp b hb (by omega)
+              · simp [colsDT, shift_colsDT_fill]
+            · simp only [if_neg hdrop]
               refine ⟨?_, ?_⟩
               · intro b hb
                 rcases List.mem_append.mp hb with hb | hb
-                · exact hmem b (List.mem_append_left _ hb)
                 · exact hemp b hb (by omega)
-              · rw [colsDT_append, hhead]
+                · exact hmem b (List.mem_append_right _ hb)
+              · rw [colsDT_append, htail]
                 simp [colsDT, shift_colsDT_fill]
+          · rw [if_neg hp, if_neg hp]
+            by_cases hneg : c < 0
+            · rw [if_pos hneg, if_pos hneg]
+              by_cases hdrop : rep = true ∧ -c ≥ (tb.ncols : Int)
+              · simp only [if_pos hdrop]
+                refine ⟨?_, ?_⟩
+                · intro b hb
+                  rw [List.nil_append] at hb
+                  exact hemp b hb (by omega)
+                · simp [colsDT, shift_colsDT_fill]
+              · simp only [if_neg hdrop]
+                refine ⟨?_, ?_⟩
+                · intro b hb
+                  rcases List.mem_append.mp hb with hb | hb
+                  · exact hmem b (List.mem_append_left _ hb)
+                  · exact hemp b hb (by omega)
+                · rw [colsDT_append, hhead]
+                  simp [colsDT, shift_colsDT_fill]
             · rw [if_neg hneg, if_neg hneg]
               refine ⟨hmem, ?_⟩
               have hc0 : c = 0 := by omega
@@ -321,26 +382,23 @@ theorem shift_colsDT_ne_nil_of_length {bs : List (Block α)} (h : 0 < (colsDT bs
 
 /-- `Frame.roll` / `Frame.shift` on a frame with at least one row and one column: the outcome is
     decided by the number of columns the walk yields. -/
-theorem TB.frameShift_general (tb : TB α) (hwf : tb.WF) (hr : 0 < tb.rows) (hc : 0 < tb.ncols)
+theorem TB.frameShift_general (rep : Bool) (tb : TB α) (hwf : tb.WF) (hr : 0 < tb.rows) (hc : 0 < tb.ncols)
     (r c : Int) (wrap : Bool) (fill : α) (fillDT : DT) :
-    ∃ bs, colsDT bs =
-        (walkCols (colsDT tb.blocks) c wrap (fillDT, List.replicate tb.rows (conv fillDT fillDT fill))).map
+    ∃ bs, tb.shiftBlocksGen resolve conv rep r c wrap fill fillDT = .ok bs ∧
+      colsDT bs =
+        (walkCols rep (colsDT tb.blocks) c wrap (fillDT, List.replicate tb.rows (conv fillDT fillDT fill))).map
           (shiftColSpec resolve conv r wrap fill fillDT) ∧
       (TB.mk tb.rows bs).WF ∧
-      tb.frameShift resolve conv r c wrap fill fillDT =
+      tb.frameShiftGen resolve conv rep r c wrap fill fillDT =
         if (colsDT bs).length ≠ tb.ncols then .error .init else .ok ⟨tb.rows, bs⟩ := by
-  obtain ⟨bs, h1, h2, h3⟩ := tb.shiftBlocks_general resolve conv hwf hr hc r c wrap fill fillDT
-  refine ⟨bs, h3, ⟨fun b hb => (h2 b hb).1, fun b hb => (h2 b hb).2⟩, ?_⟩
+  obtain ⟨bs, h1, h2, h3⟩ := tb.shiftBlocks_general resolve conv rep hwf hr hc r c wrap fill fillDT
+  refine ⟨bs, h1, h3, ⟨fun b hb => (h2 b hb).1, fun b hb => (h2 b hb).2⟩, ?_⟩
   have hlen : tb.ncols ≤ (colsDT bs).length := by
     rw [h3, List.length_map, tb.ncols_eq_colsDT]
     have hpos : 0 < (colsDT tb.blocks).length := by rw [← tb.ncols_eq_colsDT]; exact hc
-    by_cases hok : wrap = true ∨ ColShiftOk (colsDT tb.blocks).length c
-    · rw [walkCols_length_ok _ c wrap _ hpos hok]; exact Nat.le_refl _
-    · have hw : wrap = false := by cases wrap <;> simp_all
-      subst hw
-      exact Nat.le_of_lt (walkCols_overshoot _ c _ hpos (fun h => hok (Or.inr h)))
+    exact walkCols_length_ge rep _ c wrap _ hpos
   have hne : bs ≠ [] := shift_colsDT_ne_nil_of_length (by omega)
-  unfold TB.frameShift
+  unfold TB.frameShiftGen
   rw [h1]
   simp only
   rw [TB.fromBlocks_none_ok bs tb.rows hne h2]
@@ -349,10 +407,10 @@ theorem TB.frameShift_general (tb : TB α) (hwf : tb.WF) (hr : 0 < tb.rows) (hc 
 
 /-- a zero-sized axis: `column_shift % column_count` / `row_shift % row_count` raise
     ZeroDivisionError before anything else happens — also for the shifts `(0, 0)` -/
-theorem TB.shiftBlocks_zero_axis (tb : TB α) (h : tb.rows = 0 ∨ tb.ncols = 0)
+theorem TB.shiftBlocks_zero_axis (rep : Bool) (tb : TB α) (h : tb.rows = 0 ∨ tb.ncols = 0)
     (r c : Int) (wrap : Bool) (fill : α) (fillDT : DT) :
-    tb.shiftBlocks resolve conv r c wrap fill fillDT = .error .other := by
-  unfold TB.shiftBlocks TB.shiftStarts
+    tb.shiftBlocksGen resolve conv rep r c wrap fill fillDT = .error .other := by
+  unfold TB.shiftBlocksGen TB.shiftStarts
   by_cases hc : tb.ncols = 0
   · rw [hc, pyMod_zero]
   · rw [pyMod_pos c _ (by omega)]
